@@ -354,6 +354,19 @@ def _decide(rep, c, vcs, B, fmt, which, sch, known, t0):
             r = vc.decide()
             c.queries += 1
             c.solver_s += vc.time
+            if r == "valid" and rep.tier == "thorough":
+                xc = vc.cross_check()
+                rep.extra.setdefault("cross_solver", {"agree": 0, "disagree": [], "inconclusive": 0})
+                votes = set(xc.values())
+                if "sat" in votes:
+                    rep.extra["cross_solver"]["disagree"].append((vc.name, xc))
+                    c.outcome = "unexhausted"
+                    c.detail += " %s: z3 5.1 says valid but %r;" % (vc.name, xc)
+                    continue
+                if votes == {"unsat"}:
+                    rep.extra["cross_solver"]["agree"] += 1
+                else:
+                    rep.extra["cross_solver"]["inconclusive"] += 1
             if r == "valid":
                 nvalid += 1
                 continue
